@@ -195,9 +195,9 @@ public:
         }
 
         auto root_pos = root_slope * (k - first_key);
-        // beyond any position when the product does not fit: avoids an out-of-range conversion
-        auto p = root_pos >= Floating(std::numeric_limits<int64_t>::max()) ? std::numeric_limits<int64_t>::max()
-                                                                           : int64_t(root_pos) + root_intercept;
+        // beyond any position when the product is too large: avoids an out-of-range conversion and a signed overflow
+        auto p = root_pos >= Floating(std::numeric_limits<int64_t>::max() / 2) ? std::numeric_limits<int64_t>::max()
+                                                                               : int64_t(root_pos) + root_intercept;
         auto pos = std::min<size_t>(p > 0 ? size_t(p) : 0ull, root_range);
 
         for (const auto &level : levels) {
@@ -373,8 +373,8 @@ struct CompressedPGMIndex<K, Epsilon, EpsilonRecursive, Floating>::CompressedLev
 
     inline size_t operator()(const std::vector<Floating> &slopes, size_t i, K k) const {
         auto p = get_slope(slopes, i) * (k - keys[i]);
-        if (p >= Floating(std::numeric_limits<int64_t>::max()))
-            return std::numeric_limits<int64_t>::max(); // beyond any position; avoids an out-of-range conversion
+        if (p >= Floating(std::numeric_limits<int64_t>::max() / 2))
+            return std::numeric_limits<int64_t>::max(); // beyond any position; avoids an out-of-range conversion/overflow
         auto pos = int64_t(p) + get_intercept(i);
         return pos > 0 ? size_t(pos) : 0ull;
     }
@@ -572,8 +572,8 @@ protected:
 
         inline size_t operator()(const K &origin, const K &k) const {
             auto p = slope * (k - origin);
-            if (p >= Floating(std::numeric_limits<int64_t>::max()))
-                return std::numeric_limits<int64_t>::max(); // beyond any position; avoids an out-of-range conversion
+            if (p >= Floating(std::numeric_limits<int64_t>::max() / 2))
+                return std::numeric_limits<int64_t>::max(); // beyond any position; avoids an out-of-range conversion/overflow
             auto pos = int64_t(p) + intercept;
             return pos > 0 ? size_t(pos) : 0ull;
         }
